@@ -202,7 +202,7 @@ def r103(chk, w):
         d = {"relpos": relpos, "jrange": jrange, "nrange": nrange, "content": content}
         feats[kind] = (d, (j, n))
         canon = lambda s: sub(s, [I, J, NN, W, N, C.S + "::len(&arg2)"], ["i", "j", "n", "W", "N", "len"])
-        dd = {k: canon(v) for k, v in d.items()}
+        dd = {k: forms.resort(canon(v)) for k, v in d.items()}
         spec = {
             "relpos": "-1 - i + j",
             "jrange": "Range{start: satsub(1 + i, W), end: satsub(min(1 + i + W, len), n)}",
@@ -216,8 +216,8 @@ def r103(chk, w):
     if "char" in feats and "type" in feats:
         (dc, (jc, nc)), (dt, (jt, nt)) = feats["char"], feats["type"]
         for k in ("relpos", "jrange", "nrange"):
-            a = dc[k].replace(jc, "J").replace(nc, "N").replace("char_", "K_")
-            bq = dt[k].replace(jt, "J").replace(nt, "N").replace("type_", "K_")
+            a = forms.resort(dc[k].replace(jc, "J").replace(nc, "N").replace("char_", "K_"))
+            bq = forms.resort(dt[k].replace(jt, "J").replace(nt, "N").replace("type_", "K_"))
             chk.ob("R10.3", "twin(T1):%s" % k, a == bq, "character and character-type feature loops disagree after char<->type substitution: %s vs %s" % (a, bq), site=C.site(b))
     # ---- dictionary features
     dm = C.all_calls(outs, lambda e: e[2] and e[2].startswith("daachorse::") and "::find" in e[2])
@@ -242,7 +242,7 @@ def r103(chk, w):
         for e, o in cs:
             n_d += 1
             nz = forms.Normalizer(it, o)
-            ln = canon_m(rn(C.show_arg(nz, e[3][0])))
+            ln = forms.resort(canon_m(rn(C.show_arg(nz, e[3][0]))))
             chk.ob("R10.3", "dict:%s:length" % pos, ln == want_len, "dictionary %s feature length is `%s`, specification `%s`" % (pos, ln, want_len), site=C.site(b, e[1]),
                    sample={"pos": pos, "length": ln})
             # the index_mut on `examples` (arg3) that precedes this constructor on the path
